@@ -15,7 +15,8 @@ import random
 import tempfile
 
 from . import core
-from pyvc.engine import Engine
+from pyvc.engine import Engine, OutOfSubset
+from pyvc.source import SourceError
 from pyvc.source import parse_contract_file
 from pyvc.solve import discharge
 
@@ -139,6 +140,7 @@ def run(targets=None, samples=12, seed=0, verbose=False):
     ld = core.Loaded()
     tmp = tempfile.mkdtemp(prefix='pyvc_selftest_')
     mismatches, n_samples, n_obl, skipped = [], 0, 0, 0
+    out_of_subset = set()
     try:
         for target, (names, sampler, objs) in sorted(SAMPLERS.items()):
             if targets is not None and target not in targets:
@@ -186,6 +188,11 @@ def run(targets=None, samples=12, seed=0, verbose=False):
                 n_samples += 1
                 try:
                     obs = eng.verify(target)
+                except (OutOfSubset, SourceError) as e:
+                    # the function (as it now is) lies outside the engine's subset: nothing to compare; the main run
+                    # reports the function as undecided
+                    out_of_subset.add(target)
+                    continue
                 except Exception as e:
                     mismatches.append({'target': target, 'args': key, 'cpython': repr(outcome), 'engine': 'crash: %r' % (e,)})
                     continue
@@ -204,4 +211,5 @@ def run(targets=None, samples=12, seed=0, verbose=False):
         import shutil
         shutil.rmtree(tmp, ignore_errors=True)
     return {'samples': n_samples, 'obligations': n_obl, 'skipped': skipped, 'mismatches': mismatches,
+            'outside_engine_subset': sorted(out_of_subset),
             'functions': sorted(t for t in SAMPLERS if targets is None or t in targets)}
